@@ -146,6 +146,8 @@ type Config struct {
 	TypeName string
 	// Alias: parameter indices identified with the receiver.
 	Alias []int
+	// Groups: alias groups over scalar parameters; -1 denotes the receiver. Members of a group share one location.
+	Groups [][]int
 	// MaxDepth of inlining.
 	MaxDepth int
 	// Spec returns the defined value of a scalar operation by (case-folded) name; ok=false if unknown.
@@ -231,7 +233,7 @@ func (it *Interp) runOnce(fd *ast.FuncDecl) (p *Path, und *Undecided) {
 	// receiver
 	var recv *Loc
 	if fd.Recv != nil && len(fd.Recv.List[0].Names) > 0 {
-		recv = it.newLoc("r", sym.Sym("r0"))
+		recv = it.newLoc("r0", sym.Sym("r0"))
 		frame[it.info.Defs[fd.Recv.List[0].Names[0]]] = recv
 	}
 	it.path.Recv = recv
@@ -245,6 +247,32 @@ func (it *Interp) runOnce(fd *ast.FuncDecl) (p *Path, und *Undecided) {
 				if a == k {
 					if _, ok := v.(*Loc); ok && recv != nil {
 						v = recv
+					}
+				}
+			}
+			if _, isLoc := v.(*Loc); isLoc {
+				for _, g := range it.cfg.Groups {
+					in := false
+					for _, m := range g {
+						if m == k {
+							in = true
+						}
+					}
+					if !in {
+						continue
+					}
+					// representative: receiver if present, else the first member already bound
+					for _, m := range g {
+						if m == -1 && recv != nil {
+							v = recv
+							break
+						}
+						if m >= 0 && m < k && m < len(it.path.Params) {
+							if l, ok := it.path.Params[m].(*Loc); ok {
+								v = l
+								break
+							}
+						}
 					}
 				}
 			}
